@@ -103,6 +103,15 @@ def write_replay(pid, seed, name, payload):
     return p
 
 
+def case_payload(r):
+    if r["kind"] == "unit":
+        return {"unit_cases": [r["case"]]}
+    if r["kind"] == "pair":
+        a, b = dict(r["case"]["a"]), dict(r["case"]["b"])
+        return {"run_cases": [a, b], "pairs": [{"id": r["id"], "mode": r["case"]["mode"], "a": a["id"], "b": b["id"]}]}
+    return {"run_cases": [r["case"]]}
+
+
 def main():
     args = sys.argv[1:]
     if not args:
@@ -135,11 +144,11 @@ def main():
         rp = json.load(open(replay))
         unit_cases = rp.get("unit_cases", [])
         run_cases = rp.get("run_cases", [])
-        info = {"rule": "replay of " + replay, "histogram": {}}
+        info = {"rule": "replay of " + replay, "histogram": {}, "pairs": rp.get("pairs")}
     else:
         unit_cases, run_cases, info = P["cases"](tier, seed)
 
-    results = props.execute(pid, unit_cases, run_cases)
+    results = props.execute(pid, unit_cases, run_cases, info.get("pairs"))
     # results: dict(evaluations, records=[{id, kind, corr, oracle, case, detail, sig, nontrivial}], ...)
 
     known, _fixed = load_known()
@@ -170,7 +179,7 @@ def main():
         for key, r in by_key.items():
             p = write_replay(pid, seed, "oracle-" + re.sub(r"\W+", "_", key)[:40], {
                 "kind": "implementation output violates the property (oracle)", "property": pid, "clause": key,
-                "oracle": r["oracle"], "run_cases" if r["kind"] == "run" else "unit_cases": [r["case"]],
+                "oracle": r["oracle"], **case_payload(r),
                 "impl": r.get("impl"), "detail": r.get("detail")})
             violations.append((p, ""))
     if corr_breaks and not new_fails:
@@ -180,7 +189,7 @@ def main():
             for r in found[:3]:
                 p = write_replay(pid, seed, "search-" + str(r["id"]), {
                     "kind": "failing input found while searching around a broken correspondence", "property": pid,
-                    "oracle": r["oracle"], "run_cases" if r["kind"] == "run" else "unit_cases": [r["case"]]})
+                    "oracle": r["oracle"], **case_payload(r)})
                 violations.append((p, ""))
         else:
             r = min(corr_breaks, key=lambda r: len(json.dumps(r["case"])))
@@ -188,7 +197,7 @@ def main():
                 "kind": "model and implementation disagree (correspondence lost); no input violating the property was found",
                 "property": pid, "correspondence": P.get("projection", "whole output (modulo renaming of generated identifiers) + diagnostics + outcome"),
                 "mismatching_cases": len(corr_breaks), "smallest": r["case"], "verdict": r["corr"], "detail": r.get("detail"),
-                "run_cases" if r["kind"] == "run" else "unit_cases": [r["case"]]})
+                **case_payload(r)})
             violations.append((p, " no-failing-input-found"))
     if problems:
         p = write_replay(pid, seed, "proof", {
